@@ -1706,18 +1706,20 @@ class TcpClientStack(ClientStreamStack, IpStack):
             received = True
             self.rxbs.extend(raw)
 
-        if not received:  # nothing changed
+        if not self.rxbs:  # nothing to parse
             return False
 
         packet = self.parserize(self.rxbs[:])
 
-        if packet is not None:  # queue packet
-            console.profuse("{0}: received from {1}\n    0x{2}\n".format(self.name,
-                                                                     self.remote.ha,
-                            hexlify(self.rxbs[:packet.size]).decode('ascii')))
-            del self.rxbs[:packet.size]
-            self.rxPkts.append(packet)
-        return True  # received data
+        if packet is None:  # not enough for packet
+            return False
+
+        console.profuse("{0}: received from {1}\n    0x{2}\n".format(self.name,
+                                                                 self.remote.ha,
+                        hexlify(self.rxbs[:packet.size]).decode('ascii')))
+        del self.rxbs[:packet.size]
+        self.rxPkts.append(packet)  # queue packet
+        return True  # received packet
 
     def serviceReceives(self):
         """
